@@ -1044,6 +1044,9 @@ func (e *c04Engine) params(rng *vkit.RNG, i int) c04Params {
 	p.BgEvery = vkit.Pick(r, []time.Duration{time.Millisecond, time.Millisecond, 5 * time.Millisecond, 50 * time.Millisecond})
 	base := vkit.Pick(r, []time.Duration{2 * time.Millisecond, 5 * time.Millisecond})
 	p.Backoff = []time.Duration{base, 4 * base, 16 * base}
+	if r.Chance(3, 10) {
+		p.PHdrFail = 12
+	}
 	if e.mode == c04ModeC13 {
 		if r.Chance(3, 10) {
 			p.PCancel = 6
